@@ -346,13 +346,26 @@ def main(pid, tier, seed):
         jobs.append((0, mode, 25, cli_dirs[0][1], ['-s', 'nosuchsession', '--load']))
         jobs.append((0, mode, 25, cli_dirs[0][1], ['-s', 'leftover', '--load']))
 
+    # a ruleset whose rule files list one value twice inside a tied group (files merged by hand): what is drawn must still not depend
+    # on the process that draws it
+    dupd = os.path.join(work, 'dups')
+    rulesets.write_ruleset(dupd, {'A3': [('cat', 0.5), ('dog', 0.1), ('pig', 0.1), ('dog', 0.1), ('owl', 0.1), ('bee', 0.1)],
+                                  'C3': [('LLL', 0.5), ('ULL', 0.25), ('LLU', 0.25)],
+                                  'D2': [('12', 0.6), ('22', 0.1), ('07', 0.1), ('22', 0.1), ('99', 0.1)]},
+                           [('A3D2', 0.5), ('D2', 0.3), ('M', 0.2)], omen_prob=[(1, 0.5), (2, 0.25)], omen_keyspace=[(1, 3), (2, 3)])
+    os.symlink(dupd, os.path.join(rcopy, 'Rules', 'hdup'))
+    dup_desc = {'base': [['A3D2', 8], ['D2', 5], ['M', 3]], 'terminals': {'A3': [('cat', 0), ('dog', 0), ('pig', 0), ('owl', 0), ('bee', 0)],
+                'C3': [('LLL', 0), ('ULL', 0), ('LLU', 0)], 'D2': [('12', 0), ('22', 0), ('07', 0), ('99', 0)]}}
+    jobs.append(('dup', 'random_walk', 60, dup_desc))
+    jobs.append(('dup', 'random_walk', 61, dup_desc))
+
     def runcli(job):
         k, mode, N, desc = job[:4]
         extra = job[4] if len(job) > 4 else []
         outs = []
         for rep in range(2):
             # the second run of a pair is always the plain command line (the reference a random walk must reproduce)
-            out, err, code = session.cli(rcopy, 'pcfg_guesser.py', ['-r', 'h%d' % k, '-m', mode, '-n', str(N)] + (extra if rep == 0 else []),
+            out, err, code = session.cli(rcopy, 'pcfg_guesser.py', ['-r', 'h%s' % k, '-m', mode, '-n', str(N)] + (extra if rep == 0 else []),
                                          stdin='open')
             outs.append(session.stdout_lines(out))
         return outs
